@@ -25,8 +25,10 @@ using namespace vf; using namespace mxh;
 using p13::Step;
 
 // ------------------------------------------------------------------------------------------------ domain
-struct Dom { bool vclient; bool cauth; int cert; bool hrr; };   // cert: 0 = RSA identities, 1 = ECDSA P-256 identities; hrr: handshake with a HelloRetryRequest round
-static std::string dom_str(const Dom &d) { return fmt("victim=%s cauth=%d cert=%s%s", d.vclient ? "client" : "server", d.cauth, d.cert ? "ec" : "rsa", d.hrr ? " hrr" : ""); }
+// cert: 0 = RSA identities, 1 = ECDSA P-256 identities; hrr: handshake with a HelloRetryRequest round; psk: (server victim) the puppet's ClientHello offers a
+// pre_shared_key the server cannot know - it must decline it and run the full handshake, so the legal language is the same as without the offer
+struct Dom { bool vclient; bool cauth; int cert; bool hrr; bool psk; };
+static std::string dom_str(const Dom &d) { return fmt("victim=%s cauth=%d cert=%s%s%s", d.vclient ? "client" : "server", d.cauth, d.cert ? "ec" : "rsa", d.hrr ? " hrr" : "", d.psk ? " unknown-psk-offered" : ""); }
 
 static p13::IdentityPtr ident(bool server, int cert) {
     static p13::IdentityPtr ids[2][2];
@@ -325,8 +327,11 @@ static std::vector<Dev> all_singles(const Dom &d) {
     r.push_back({ OP_SKIP_AUTH, 0, 0 }); r.push_back({ OP_EMPTY_CERT, 0, 0 }); for (int k = 0; k < 3; k++) r.push_back({ OP_SPAN, 0, k });
     return r;
 }
-static const Dom DOMS[8] = { { true, false, 0, false }, { true, false, 1, false }, { true, true, 0, false }, { true, true, 1, false },
-                             { false, false, 0, false }, { false, false, 1, false }, { false, true, 0, false }, { false, true, 1, false } };
+// domain points of the bounded-exhaustive target; new points are appended so that the indices of the regression tapes stay valid
+static const int NDOM = 10;
+static const Dom DOMS[NDOM] = { { true, false, 0, false, false }, { true, false, 1, false, false }, { true, true, 0, false, false }, { true, true, 1, false, false },
+                                { false, false, 0, false, false }, { false, false, 1, false, false }, { false, true, 0, false, false }, { false, true, 1, false, false },
+                                { false, true, 0, false, true }, { false, true, 1, false, true } };
 
 // ------------------------------------------------------------------------------------------------ one run
 struct Var {                 // legal variations, independent of the deviations
@@ -367,6 +372,12 @@ static Result execute(const Dom &d, std::vector<Item> &items, const Var &var, Ct
     // ---- puppet
     p13::Config pc; pc.server = d.vclient; pc.seed = 77 + var.seed; pc.group = (var.x25519 != d.hrr) ? p13::GROUP_X25519 : p13::GROUP_SECP256R1;
     pc.identity = ident(d.vclient, d.cert); pc.trace = c.verbose;
+    if (d.psk && !d.vclient) {   // an identity of 32..120 pseudo-random bytes, random obfuscated_ticket_age, 32-byte binder (never verified for a declined PSK)
+        uint64_t z = 0x9E3779B97F4A7C15ULL * (var.seed + 11);
+        auto nx = [&z]() { z ^= z << 13; z ^= z >> 7; z ^= z << 17; return z; };
+        pc.psk_identity.resize(32 + nx() % 89); for (auto &b : pc.psk_identity) b = (uint8_t) (nx() >> 24);
+        pc.psk_obfuscated_age = (uint32_t) nx();
+    }
     p13::Puppet P(pc);
 
     Bytes legit_sent; bool legit_phase = false;
@@ -418,6 +429,8 @@ static Result execute(const Dom &d, std::vector<Item> &items, const Var &var, Ct
         group_start = i + 1;
     }
     if (first_dev < 0) R.reached = true;
+    // the puppet holds no PSK: a ServerHello that selects the offered identity accepted a PSK it cannot know
+    VF_CHECK(P.seen().selected_psk < 0, sig("tls13-unknown-psk-selected"), "the server's ServerHello carries pre_shared_key (selected_identity %d) for an identity of random bytes; %s", P.seen().selected_psk, desc.c_str());
     const bool trailing = v.accepts() && v.complete_at + 1 < (int) items.size();   // items after the completing Finished: post-handshake traffic, not judged by C06
     if (trailing) c.count("post-handshake-items");
 
@@ -477,8 +490,15 @@ static void selftest(Ctx &c) {
         Result r = execute(d, items, var, c, desc, true);
         if (!r.completed) VF_FAIL("harness-puppet-selftest", "un-deviated script did not complete; %s", desc.c_str());
     }
+    for (int k = 0; k < 3; k++) {   // server victim, ClientHello offers a pre_shared_key nobody knows: declined, full handshake (without / with client auth / after a HelloRetryRequest)
+        Dom d = { false, k >= 1, k & 1, k == 2, true }; std::vector<Item> items = legal_trace(d);
+        Var var; var.seed = 300 + k; var.x25519 = k & 1;
+        std::string desc = "selftest " + dom_str(d);
+        Result r = execute(d, items, var, c, desc, true);
+        if (!r.completed) VF_FAIL("harness-puppet-selftest", "un-deviated script with a declined pre_shared_key offer did not complete; %s", desc.c_str());
+    }
     for (int k = 0; k < 2; k++) {   // HelloRetryRequest round, one per role
-        Dom d = { k == 0, k == 1, k, true }; std::vector<Item> items = legal_trace(d);
+        Dom d = { k == 0, k == 1, k, true, false }; std::vector<Item> items = legal_trace(d);
         Var var; var.seed = 200 + k; var.x25519 = k;
         std::string desc = "selftest " + dom_str(d);
         Result r = execute(d, items, var, c, desc, true);
@@ -514,14 +534,15 @@ static void prop(Tape &t, Ctx &c) {
     // index -> (domain point, single deviation); default framing
     uint64_t idx = t.u64();
     int k = 0; std::vector<Dev> dl;
-    for (; k < 8; k++) { dl = all_singles(DOMS[k]); if (idx < dl.size()) break; idx -= dl.size(); }
-    if (k == 8) throw Discard{};
+    for (; k < NDOM; k++) { dl = all_singles(DOMS[k]); if (idx < dl.size()) break; idx -= dl.size(); }
+    if (k == NDOM) throw Discard{};
     Dom d = DOMS[k]; std::vector<Dev> chosen = { dl[idx] };
     Var var; var.seed = 1 + (uint32_t) idx; var.x25519 = idx & 1;
     bool vary = false;
 #else
     Dom d = DOMS[t.below(8)];
     d.hrr = t.chance(1, 4);
+    d.psk = !d.vclient && t.chance(1, 3);
     std::vector<Dev> singles = all_singles(d);
     unsigned nsel = (unsigned) t.below(20); int ndev = nsel < 1 ? 0 : nsel < 15 ? 1 : 2;
     std::vector<Dev> chosen;
@@ -559,7 +580,7 @@ static void prop(Tape &t, Ctx &c) {
 
     Result r = execute(d, items, var, c, desc);
 
-    c.count(std::string("victim:") + (d.vclient ? "client" : "server") + (d.hrr ? "+hrr" : ""));
+    c.count(std::string("victim:") + (d.vclient ? "client" : "server") + (d.hrr ? "+hrr" : "") + (d.psk ? "+unknown-psk" : ""));
     c.count(fmt("deviations:%zu", applied.size()));
     c.count(v.accepts() ? "model:legal" : "model:illegal");
     if (!v.accepts()) c.count("illegal:" + (v.first_bad >= 0 ? v.why : std::string("missing-finished")));
@@ -568,14 +589,14 @@ static void prop(Tape &t, Ctx &c) {
     if (!v.accepts()) c.count(fmt("victim-alert:%d", r.alert));
     if (r.reached) {
         c.count("deviation-position-reached");
-        std::string key = fmt("%d|%d|%d|%d", d.vclient, d.cauth, d.cert, d.hrr);
+        std::string key = fmt("%d|%d|%d|%d|%d", d.vclient, d.cauth, d.cert, d.hrr, d.psk);
         for (auto &x : applied) key += fmt("|%d@%d", x.op, x.pos);
         if (!applied.empty()) c.nontrivial(key);
     } else c.count("deviation-position-not-reached");
 }
 
 #ifdef C06_ENUM
-namespace vf { uint64_t vf_enum_total() { uint64_t n = 0; for (int k = 0; k < 8; k++) n += all_singles(DOMS[k]).size(); return n; } }
+namespace vf { uint64_t vf_enum_total() { uint64_t n = 0; for (int k = 0; k < NDOM; k++) n += all_singles(DOMS[k]).size(); return n; } }
 VF_TARGET("C06.seq13_all_singles", prop, 16, 60)
 #else
 VF_TARGET("C06.seq13", prop, 256, 60)
@@ -583,7 +604,7 @@ VF_TARGET("C06.seq13", prop, 256, 60)
 namespace vf { void vf_global_init(int, char **) {
     if (getenv("C06_LIST_SINGLES")) {   // index -> deviation table of the bounded-exhaustive target (for naming regression tapes)
         uint64_t idx = 0;
-        for (int k = 0; k < 8; k++) for (auto &x : all_singles(DOMS[k])) printf("%llu %s %s\n", (unsigned long long) idx++, dom_str(DOMS[k]).c_str(), dev_str(x).c_str());
+        for (int k = 0; k < NDOM; k++) for (auto &x : all_singles(DOMS[k])) printf("%llu %s %s\n", (unsigned long long) idx++, dom_str(DOMS[k]).c_str(), dev_str(x).c_str());
         exit(0);
     }
     mxh::global_open();
